@@ -42,13 +42,19 @@ def keygen(ctx, rep):
         coin = I.V.bv('coin', 32); ks = I.V.bv('key_size', 64)
         before = {k: list(v) for k, v in st.mem.objs.items()}
         outs = I.run(f, [seed, coin, ks, Ptr('key_out', 0)], st)
-        rep.check(len(outs) == 1, 'keygen has a single path', w, f.name, key='KEYGEN|paths')
-        if len(outs) != 1: continue
-        o = outs[0]; recs = pb_records(o)
+        rep.check(len(outs) >= 1, 'keygen returns (at least one non-aborting partition)', w, f.name, key='KEYGEN|paths')
+        rep.info.setdefault('assert_partitions', {})[cfg + ':keygen'] = len(I.aborts)
+        for o in outs:
+            _keygen_partition(P, I, rep, f, w, o, fo, coin, ks, before)
+
+
+def _keygen_partition(P, I, rep, f, w, o, fo, coin, ks, before):
+        R = lambda bits: [o.state.cons.reduce(b) for b in bits]
+        recs = pb_records(o)
         rep.check(len(recs) == 1, 'exactly one dep:pbkdf2_sha256 call (found %d)' % len(recs), w, f.name, key='KEYGEN|count')
         ncalls = sum(1 for t in o.state.trace if t[0] in ('pbkdf2', 'randbytes', 'time', 'alloc', 'free', 'u8_nfc', 'u8_nfkd'))
         rep.check(ncalls == len(recs), 'no other injected function is called by keygen', w, f.name, detail=[t[0] for t in o.state.trace], key='KEYGEN|other-deps')
-        if len(recs) != 1: continue
+        if len(recs) != 1: return
         r = recs[0]; so = fo['secret'][0]
         rep.check(r['_pw'] == Ptr('seed', so), 'password pointer = &seed->secret[0]', r['loc'], 'pbkdf2 argument pw', detail=r['pw'], key='KEYGEN|pw')
         rep.check(r['_pwlen'].concrete() == fo['secret'][1] == 32, 'password length = 32 (the whole zero-padded secret buffer)', r['loc'],
@@ -56,7 +62,7 @@ def keygen(ctx, rep):
         rep.check(r['saltlen'] == 32, 'salt length = 32', r['loc'], 'pbkdf2 argument saltlen', detail=r['saltlen'], key='KEYGEN|saltlen')
         rep.check(r['iterations'] == 10000, 'iterations = 10000', r['loc'], 'pbkdf2 argument iterations', detail=r['iterations'], key='KEYGEN|iter')
         rep.check(r['_key'] == Ptr('key_out', 0), 'key pointer = key_out (unaltered)', r['loc'], 'pbkdf2 argument key', detail=r['key'], key='KEYGEN|key')
-        rep.check(r['_keylen'].bits == ks.bits, 'key length = key_size (unaltered)', r['loc'], 'pbkdf2 argument keylen', detail=str(r['keylen'])[:200], key='KEYGEN|keylen')
+        rep.check(R(r['_keylen'].bits) == R(ks.bits), 'key length = key_size (unaltered)', r['loc'], 'pbkdf2 argument keylen', detail=str(r['keylen'])[:200], key='KEYGEN|keylen')
         sb = r.get('_salt_bytes')
         if sb is None:
             rep.fail('salt is a readable 32-byte object', r['loc'], 'pbkdf2 argument salt', key='KEYGEN|salt')
@@ -68,7 +74,7 @@ def keygen(ctx, rep):
             exp += [I.V.bit('features.%d' % j) for j in range(32)]
             exp += [0] * 32
             for k in range(32):
-                got = sb.bits[8 * k:8 * k + 8]; wantb = exp[8 * k:8 * k + 8]
+                got = R(sb.bits[8 * k:8 * k + 8]); wantb = R(exp[8 * k:8 * k + 8])
                 rep.check(got == wantb, 'salt byte %d = %s' % (k, [I.V.show(b) for b in wantb]), r['loc'], 'keygen salt byte %d' % k,
                           detail={'found': [I.V.show(b) for b in got]}, sample={'byte': k, 'bits': [I.V.show(b) for b in got]} if k in (0, 12, 13, 16, 20, 24, 28) else None,
                           key='KEYGEN|salt%d' % k)
@@ -97,18 +103,24 @@ def crypt(ctx, rep):
         st.mem.new('password', 8, 0)
         before = {k: list(v) for k, v in st.mem.objs.items()}
         outs = I.run(f, [seed, Ptr('password', 0)], st)
-        rep.check(len(outs) == 1, 'crypt has a single path', w, f.name, key='CRYPT|paths')
-        if len(outs) != 1: continue
-        o = outs[0]; recs = pb_records(o)
+        rep.check(len(outs) >= 1, 'crypt returns (at least one non-aborting partition)', w, f.name, key='CRYPT|paths')
+        rep.info.setdefault('assert_partitions', {})[cfg + ':crypt'] = len(I.aborts)
+        for o in outs:
+            _crypt_partition(P, I, rep, f, w, o, fo, seed, before)
+
+
+def _crypt_partition(P, I, rep, f, w, o, fo, seed, before):
+        R = lambda bits: [o.state.cons.reduce(b) for b in bits]
+        recs = pb_records(o)
         rep.check(len(recs) == 1, 'exactly one dep:pbkdf2_sha256 call', w, f.name, key='CRYPT|count')
-        if len(recs) != 1: continue
+        if len(recs) != 1: return
         r = recs[0]
         lazy = [t for t in o.state.trace if t[0] == 'utf8_nfkd_lazy']
         rep.check(len(lazy) == 1 and lazy[0][1] == repr(Ptr('password', 0)), 'the password reaches the library only through one utf8_nfkd_lazy(password, buf) call',
                   w, f.name, detail=lazy, key='CRYPT|nfkd')
         if lazy:
             rep.check(r['pw'] == lazy[0][2], 'KDF password = the buffer utf8_nfkd_lazy filled', r['loc'], 'pbkdf2 argument pw', detail=(r['pw'], lazy[0][2]), key='CRYPT|pw')
-        rep.check(r['_pwlen'].bits == I.V.bv('nfkd.len', 64).bits, 'KDF password length = the length utf8_nfkd_lazy returned (terminator excluded)', r['loc'],
+        rep.check(R(r['_pwlen'].bits) == R(I.V.bv('nfkd.len', 64).bits), 'KDF password length = the length utf8_nfkd_lazy returned (terminator excluded)', r['loc'],
                   'pbkdf2 argument pwlen', detail=str(r['pwlen'])[:200], key='CRYPT|pwlen')
         rep.check(r['saltlen'] == 16 and r['iterations'] == 10000 and r['keylen'] == 32, 'saltlen 16, iterations 10000, keylen 32', r['loc'], 'pbkdf2 arguments',
                   detail={k: r[k] for k in ('saltlen', 'iterations', 'keylen')}, key='CRYPT|consts')
@@ -146,7 +158,7 @@ def crypt(ctx, rep):
         # involution
         I3 = mk_interp(P); I3.V = I.V
         outs3 = I3.run(f, [seed, Ptr('password', 0)], o.state.clone())
-        ok = len(outs3) == 1
+        ok = len(outs3) >= 1
         if ok:
             for fld in ('birthday', 'features', 'secret', 'checksum'):
                 o_, sz = fo[fld]
@@ -713,7 +725,9 @@ def encode_api(ctx, rep):
         st.mem.hooks = {'lang': lang_hook}
         before = list(st.mem.objs['seed'])
         outs = I.run(f, [seed, Ptr('lang', 0), coin, Ptr('str_out', 0)], st)
-        rep.check(len(outs) == 2, 'two exits (composing / non-composing language)', w, f.name, detail=len(outs), key='ENC-TRACE|exits')
+        comps = sorted(set(str(o.state.cons.reduce(I.V.bit('lang.compose'))) for o in outs))
+        rep.check(comps == ['0', '1'], 'exits for both a composing and a non-composing language', w, f.name, detail={'partitions': len(outs), 'compose_values': comps}, key='ENC-TRACE|exits')
+        rep.info.setdefault('assert_partitions', {})[cfg + ':encode'] = len(I.aborts)
         for o in outs:
             C = o.state.cons
             comp = C.reduce(I.V.bit('lang.compose'))
@@ -745,7 +759,7 @@ def encode_api(ctx, rep):
             if comp == 1:
                 rep.check(len(nfc) == 1 and nfc[0][2] == repr(Ptr('str_out', 0)) and nfc[0][1] == ws[0][1].replace('pos', 'str_tmp') or (len(nfc) == 1 and nfc[0][2] == repr(Ptr('str_out', 0))),
                           'composing language: one dep:u8_nfc(local buffer, str_out)', w, cons, detail=nfc, key='ENC-TRACE|nfc')
-                rep.check(o.ret.bits == I.V.bv('nfc.len', 64).bits, 'returns the length reported by dep:u8_nfc', w, cons, key='ENC-TRACE|ret-nfc')
+                rep.check([C.reduce(b) for b in o.ret.bits] == [C.reduce(b) for b in I.V.bv('nfc.len', 64).bits], 'returns the length reported by dep:u8_nfc', w, cons, key='ENC-TRACE|ret-nfc')
             else:
                 rep.check(not nfc, 'non-composing language: no NFC call', w, cons, key='ENC-TRACE|no-nfc')
                 mc = [t for t in o.state.trace if t[0] == 'memcpy-symbolic-size']
